@@ -2168,12 +2168,34 @@ def record_name_operand_is_the_argument(ctx, rid):
     prog = ctx.prog
     b = prog.one(r"state::target_relpath")
     ba = BA.of(b)
-    rel = ba.calls(r"state::relpath")
+    # relpath, or the worker relpath itself hands both its operands to (a generic shell over a non-generic body)
+    fam = ["state::relpath"]
+    rp = prog.bodies.get("state::relpath")
+    if rp is not None:
+        rba = BA.of(rp)
+        for i in rba.all_calls():
+            for q in callee_paths(rp.blocks[i]["term"]):
+                w = prog.bodies.get(q)
+                if w is not None and w.arg_count == rp.arg_count and len(rp.blocks[i]["term"]["args"]) == rp.arg_count and q not in fam:
+                    fam.append(q)
+    from rules.C06 import backward_direct
+    # ... also when that worker is new code that the canonicaliser spliced into both (the splice point keeps the operands)
+    def splices(body):
+        return [(i, bl["term"]) for i, bl in enumerate(body.blocks) if bl["term"].get("inlined") and bl["term"].get("inl_args") is not None]
+    workers = set()
+    if rp is not None:
+        for i, t in splices(rp):
+            ls = [op_local(a) for a in t["inl_args"]]
+            if len(ls) == rp.arg_count and all(l is not None for l in ls):
+                roots = [set(x for x in backward_direct(rp, l, depth=20)[0] if 1 <= x <= rp.arg_count) for l in ls]
+                if all(r_ == {n_ + 1} for n_, r_ in enumerate(roots)):
+                    workers.add(t["inlined"])
+    rel = [(i, b.blocks[i]["term"]["args"]) for i in ba.calls("|".join(re.escape(q) for q in fam))]
+    rel += [(i, t["inl_args"]) for i, t in splices(b) if t["inlined"] in workers]
     if not rel:
         raise AnchorError("%s: no relpath call in %s" % (rid, b.key))
-    from rules.C06 import backward_direct
-    for k, i in enumerate(rel):
-        a0 = op_local(b.blocks[i]["term"]["args"][0])
+    for k, (i, args_) in enumerate(rel):
+        a0 = op_local(args_[0])
         sl, org, _ = backward_direct(b, a0, depth=40) if a0 is not None else (set(), [], None)
         from_param = any(1 <= x <= b.arg_count for x in sl)
         other = [o for o in org if o[0] == "call"]
